@@ -471,7 +471,7 @@ func livenessCmd(args []string) int {
 		sink.Reset("scenario", "faults")
 		r := &lvRun{sink: sink, attempts: map[int][]time.Time{}, closes: map[int][]time.Time{}}
 		sched.Install(nil)
-		sched.Filter = func(string) bool { return false }
+		sched.SetFilter(func(string) bool { return false })
 		verifhookSet(r.hook)
 		var wg sync.WaitGroup
 		run := func(f func()) { wg.Add(1); nsys++; go func() { defer wg.Done(); f() }() }
